@@ -48,7 +48,7 @@ Alphabet(f) == IF Hist THEN SmallAlphabet(f) ELSE WideAlphabet(f)
 
 Init == \E b \in BppSet, o \in {0, 1}, s \in Cfgs :
         /\ fb = [bpp |-> b, ord |-> o, w |-> s[1], h |-> s[2], n |-> ExpectedLen(s[1], s[2], b) + s[3]]
-        /\ bytes = [k \in 1..(ExpectedLen(s[1], s[2], b) + s[3]) |-> 0]          \* Framebuffer::new (framebuffer.rs:89)
+        /\ bytes = [k \in 1..(ExpectedLen(s[1], s[2], b) + s[3]) |-> 0]          \* Framebuffer::new (framebuffer.rs:90)
         /\ m = [p \in PointsOf(<<0, 0, s[1], s[2]>>) |-> 0]
         /\ prev = bytes /\ inside = TRUE /\ depth = 0 /\ hist = <<>>
 
